@@ -201,7 +201,7 @@ class Ticket:
                 for f in class_facts(cs, "Some"):
                     adm = adm or self.is_admission(f)
                 if adm is not None and all(v is not None and v[0] == "agg" and v[2] and unref(v[2][0]) == unref(adm[1])
-                                           for (_K, _fs, v) in cs):
+                                           for (_K, _fs, v) in cs) and self._still_held(pctx, adm[0]):
                     return adm[0]
         p = self.env.ev.payload(pctx, recv)
         if p[0] == "payload":
@@ -210,7 +210,9 @@ class Ticket:
             if f[0] == "eq":
                 for a, b in ((f[1], f[2]), (f[2], f[1])):
                     ld = self.serving_load(a)
-                    if ld is not None and b == p:
+                    # (an admission that reached this body inside the result of a callee that does not itself hand the ticket
+                    #  on — it used and released it — opens no region here)
+                    if ld is not None and b == p and self._still_held(pctx, ld):
                         return ld
         return None
 
